@@ -413,7 +413,7 @@ func (fr *frame) curPos() token.Pos {
 func (i *interpreter) race(addr *value, pos, other token.Pos, t1, t2 int) {
 	p1 := i.prog.Fset.Position(pos)
 	p2 := i.prog.Fset.Position(other)
-	a, b := shortPos(p1.String()), shortPos(p2.String())
+	a, b := shortPos(p1.String(), i.p.RepoDir), shortPos(p2.String(), i.p.RepoDir)
 	if b < a {
 		a, b = b, a
 	}
@@ -423,9 +423,12 @@ func (i *interpreter) race(addr *value, pos, other token.Pos, t1, t2 int) {
 	panic(runAbort{"dead", ""})
 }
 
-func shortPos(s string) string {
-	if k := strings.Index(s, "/repo/"); k >= 0 {
-		s = s[k+6:]
+func shortPos(s, repo string) string {
+	if repo == "" {
+		repo = "/repo"
+	}
+	if k := strings.Index(s, repo+"/"); k >= 0 {
+		s = s[k+len(repo)+1:]
 	}
 	if k := strings.LastIndex(s, ":"); k >= 0 {
 		s = s[:k] // drop the column
